@@ -167,11 +167,13 @@ func zzBalances(sm *StateMachine) (out [5]uint64) {
 	return
 }
 
-//zz:harness mode=int unwind=60 maxpaths=200000 timebudget=3000 tier=thorough replay=model
+//zz:harness mode=int unwind=60 maxpaths=200000 timebudget=7200 tier=thorough replay=model
 //zz:reach C07.t1-failed C07.t1-ok
 func ZZ_C07_failed_tx_leaves_no_trace() {
 	w := zzWorldValues()
 	s1, s2 := zzValidEnvelopeSpec("t1"), zzValidEnvelopeSpec("t2")
+	// bound: t1 has any sender and recipient, t2 any sender paying its successor (27 party layouts)
+	zzAssume(s2.to == (s2.from+1)%3)
 	// run 1: block [t1, t2]
 	smA, stA := zzBuildWorld(w)
 	t1, t2 := zzSendTxBytes(s1), zzSendTxBytes(s2)
